@@ -134,7 +134,8 @@ def _work(pid, tier, master, indices, use_cases):
     sys.stdout = open(os.devnull, 'w')    # the library print()s
     mod = load(pid)
     out = {'n': 0, 'nontrivial': set(), 'viol': [], 'harness': [], 'stats': {}, 'samples': [], 'sim_s': 0.0,
-           'digests': {}, 'wall': 0.0, 'states': set()}
+           'digests': {}, 'wall': 0.0, 'states': set(), 'known': {}}
+    findings = load_findings()
     t0 = time.time()
     for i in indices:
         try:
@@ -162,7 +163,17 @@ def _work(pid, tier, master, indices, use_cases):
         for st in res.get('states', ()):
             out['states'].add(st)
         if res['violations']:
-            pv = primary_violation(res['violations'])
+            # violations matching an open known finding are counted, the rest of the run is still judged
+            rest = []
+            for v in res['violations']:
+                f = match_open_finding(findings, pid, signature(mod, scn, v))
+                if f is not None:
+                    out['known'][f['signature']] = out['known'].get(f['signature'], 0) + 1
+                else:
+                    rest.append(v)
+            if not rest:
+                continue
+            pv = primary_violation(rest)
             if len(out['viol']) < 40:
                 out['viol'].append((i, signature(mod, scn, pv), pv, scn, [v['clause'] for v in res['violations']]))
             else:
@@ -206,7 +217,7 @@ def minimise(mod, scn, sig, budget_s=90.0):
             res = safe_execute(mod, cand)
             if res.get('harness') or not res['violations']:
                 continue
-            if signature(mod, cand, primary_violation(res['violations'])) == sig:
+            if sig in [signature(mod, cand, v) for v in res['violations']]:
                 cur = cand
                 progress = True
                 break
@@ -306,7 +317,7 @@ def explore(mod, tier, master, runs_override=None, workers=None, no_selftest=Fal
     chunk = max(1, min(getattr(mod, 'CHUNK', 50), (total + workers * 4 - 1) // (workers * 4)))
     chunks = [list(range(s, min(s + chunk, total))) for s in range(0, total, chunk)]
     agg = {'n': 0, 'nontrivial': set(), 'viol': [], 'harness': [], 'stats': {}, 'samples': [], 'sim_s': 0.0,
-           'digests': {}, 'cpu_s': 0.0, 'states': set()}
+           'digests': {}, 'cpu_s': 0.0, 'states': set(), 'known': {}}
     skipped = 0
     incomplete = False
     ctx = multiprocessing.get_context('fork')
@@ -341,6 +352,8 @@ def explore(mod, tier, master, runs_override=None, workers=None, no_selftest=Fal
                 agg['cpu_s'] += r['wall']
                 agg['digests'].update(r['digests'])
                 agg['states'] |= r['states']
+                for k, v in r['known'].items():
+                    agg['known'][k] = agg['known'].get(k, 0) + v
                 for k, v in r['stats'].items():
                     agg['stats'][k] = agg['stats'].get(k, 0) + v
                 if len(agg['samples']) < 3:
@@ -384,6 +397,9 @@ def explore(mod, tier, master, runs_override=None, workers=None, no_selftest=Fal
     for (i, sig, pv, scn, clauses) in sorted(agg['viol'], key=lambda x: x[0]):
         by_sig.setdefault(sig, []).append((i, pv, scn, clauses))
     known_hits = {}
+    for fsig, cnt in agg['known'].items():
+        f = next(x for x in findings if x['signature'] == fsig and x.get('status') == 'open' and x.get('property') == pid)
+        known_hits[fsig] = [f, cnt]
     new = []
     minimised = 0
     for sig, items in sorted(by_sig.items()):
@@ -401,7 +417,8 @@ def explore(mod, tier, master, runs_override=None, workers=None, no_selftest=Fal
         else:
             small, tried = scn, 0
         res = safe_execute(mod, copy.deepcopy(small))
-        pv2 = primary_violation(res['violations']) if res.get('violations') else pv
+        same = [v for v in (res.get('violations') or []) if signature(mod, small, v) == sig]
+        pv2 = same[0] if same else pv
         sig2 = signature(mod, small, pv2)
         f = match_open_finding(findings, pid, sig2)
         if f is not None:
